@@ -376,6 +376,16 @@ def runCase (rc : RunCfg) (c : Case) : String × String :=
   | "rxcache" => (rxCacheRun c.extra, "-")
   | "tmpl" => tmplRun c.extra
   | "wide" => (wideRun c.extra, wideRun c.extra)
+  | "ctx" =>
+    -- the context node after every `Select` is where it was (`C13_select_leaves_context_node`); the number of
+    -- nodes drawn is the length of the model's sequence
+    let s := modelSel rc c c.expr c.ctx
+    if s == "cerr" then ("cerr", "-") else
+    if s.startsWith "seq:" then
+      let body := (s.drop 4).toString
+      let n := if body == "" then 0 else (body.splitOn ",").length
+      (s!"ctx:-1/{n}", s!"ctx:-1/{n}")
+    else ("ctx:" ++ s, "-")
   | _ => ("-", "-")
 
 partial def loop (rc : RunCfg) (hin : IO.FS.Stream) (hout : IO.FS.Stream) : IO Unit := do
